@@ -39,6 +39,10 @@ def configs(quick):
     # screening with free (unpinned) terminals: the link variables are refreshed at every step
     out.append(dict(dev="bar", smooth=0, gamma=10.0, u=0.5, adaptive=True, screening=True))
     out.append(dict(dev="bar_hole", smooth=3, gamma=1.0, u=5.79, adaptive=False, screening=True))
+    # terminals pinned to the uniform value itself (psi = 1 is consistent with that boundary condition): still quiet,
+    # and the step still grows to its maximum
+    out.append(dict(dev="bar", smooth=0, gamma=10.0, u=5.79, adaptive=True, screening=False, tp=1.0))
+    out.append(dict(dev="bar_hole", smooth=3, gamma=1.0, u=5.79, adaptive=True, screening=True, tp=1.0))
     # long quiet runs ("all steps"): 5 tau with dt_max below and 30 tau with dt_max above the stability limit
     # dt * lambda_max(-Laplacian) / u < 2 of the explicit step (u = 1, gamma = 0: the smallest damping)
     out.append(dict(dev="bar_hole", smooth=3, gamma=0.0, u=1.0, adaptive=True, screening=False, long=True, dt_max=0.01, T=5.0))
@@ -68,7 +72,7 @@ def eval_config(ctx, cfg, with_model=True):
         tdgl.solve(dev, runs.options(solve_time=0.02, dt_init=5e-3, adaptive=False, save_every=100, terminal_psi=0.0), applied_vector_potential=0.3,
                    terminal_currents={names[0]: 1.0, names[1]: -1.0})
         ctx.count("quiet_runs_after_a_pinned_run_on_the_same_device")
-    o = dict(dt_init=1e-3, dt_max=cfg.get("dt_max", 0.1), adaptive=cfg["adaptive"], adaptive_window=3, terminal_psi=None, include_screening=cfg["screening"], screening_tolerance=1e-3)
+    o = dict(dt_init=1e-3, dt_max=cfg.get("dt_max", 0.1), adaptive=cfg["adaptive"], adaptive_window=3, terminal_psi=cfg.get("tp"), include_screening=cfg["screening"], screening_tolerance=1e-3)
     nsteps = 12
     T = cfg.get("T") or ((1e-3 * nsteps) if not cfg["adaptive"] else 0.6)
     opts = runs.options(solve_time=T, save_every=(20 if cfg.get("long") else 2), output_file=out, progress_interval=10**9, **o)
@@ -85,7 +89,7 @@ def eval_config(ctx, cfg, with_model=True):
         dev_ = max(float(np.abs(d["psi"] - 1).max()), float(np.abs(d["mu"]).max()), float(np.abs(d["supercurrent"]).max()), float(np.abs(d["normal_current"]).max()),
                    float(np.abs(d["induced_vector_potential"]).max()))
         worst = max(worst, dev_)
-        ctx.case((cfg["dev"], cfg["gamma"], cfg["adaptive"], cfg["screening"], cfg.get("dt_max", 0.1), fr["step"]), nontrivial=fr["step"] > 0)
+        ctx.case((cfg["dev"], cfg["gamma"], cfg["adaptive"], cfg["screening"], cfg.get("dt_max", 0.1), cfg.get("tp"), fr["step"]), nontrivial=fr["step"] > 0)
         if dev_ > 1e-10:
             key = "uniform-state-drifts" + (f":long:{cfg['dev']}:gamma={cfg['gamma']}:u={cfg['u']}:dt_max={cfg['dt_max']}" if cfg.get("long") else "")
             fail(key, f"step {fr['step']} (t = {float(fr['time']):.3g}): deviation from psi=1, mu=0, J=0 is {dev_:.3e} (gamma={cfg['gamma']}, u={cfg['u']}, dt_max={o['dt_max']})", step=fr["step"], deviation=dev_)
